@@ -29,47 +29,58 @@ _PROXY_OWN_ATTRIBUTES = frozenset([
 def augment_exception_message_and_reraise(exception, message):
   """Reraises `exception`, appending `message` to its string representation."""
 
-  class ExceptionProxy(type(exception)):
-    """Acts as a proxy for an exception with an augmented message."""
-    __module__ = type(exception).__module__
+  try:
+    class ExceptionProxy(type(exception)):
+      """Acts as a proxy for an exception with an augmented message."""
+      __module__ = type(exception).__module__
 
-    def __init__(self, *args, **kwargs):
-      pass
+      def __init__(self, *args, **kwargs):
+        pass
 
-    def __getattribute__(self, attr_name):
-      # Read everything from the original exception, including data that
-      # builtin exceptions keep outside the instance dict (`args`, `errno`,
-      # `filename`, `value`, `name`, ...), which would otherwise be found,
-      # unset, on the proxy itself.
-      if attr_name not in _PROXY_OWN_ATTRIBUTES:
-        try:
-          return getattr(exception, attr_name)
-        except AttributeError:
-          pass
-      return super().__getattribute__(attr_name)
+      def __getattribute__(self, attr_name):
+        # Read everything from the original exception, including data that
+        # builtin exceptions keep outside the instance dict (`args`, `errno`,
+        # `filename`, `value`, `name`, ...), which would otherwise be found,
+        # unset, on the proxy itself.
+        if attr_name not in _PROXY_OWN_ATTRIBUTES:
+          try:
+            return getattr(exception, attr_name)
+          except AttributeError:
+            pass
+        return super().__getattribute__(attr_name)
 
-    def __str__(self):
-      return str(exception) + message
+      def __str__(self):
+        return str(exception) + message
 
-  ExceptionProxy.__name__ = type(exception).__name__
-  ExceptionProxy.__qualname__ = type(exception).__qualname__
+    ExceptionProxy.__name__ = type(exception).__name__
+    ExceptionProxy.__qualname__ = type(exception).__qualname__
+  except Exception:  # pylint: disable=broad-except
+    # The class doesn't let itself be subclassed like this (`__init_subclass__`
+    # or a metaclass objected); the message can't be augmented, but the
+    # exception itself must not be replaced by this failure.
+    ExceptionProxy = None  # pylint: disable=invalid-name
 
   # Bypass `__init__`, but hand the constructor arguments to `__new__`, which
   # some exception classes (e.g. exception groups) require. A `__new__` defined
-  # by a user class may not accept `args` (which `__init__` is free to replace);
-  # the proxy reads all its data from the original exception, so the `__new__`
-  # of the nearest builtin base class serves as well.
+  # by a user class may not accept `args` (which `__init__` is free to replace),
+  # or may not return an instance of the class it is given; the proxy reads all
+  # its data from the original exception, so the `__new__` of the nearest
+  # builtin base class serves as well.
   proxy = None
-  for base in (ExceptionProxy,) + tuple(
-      base for base in type(exception).__mro__ if base.__module__ == 'builtins'):
-    try:
-      proxy = base.__new__(ExceptionProxy, *exception.args)
-      break
-    except TypeError:
-      continue
+  if ExceptionProxy is not None:
+    for base in (ExceptionProxy,) + tuple(
+        base for base in type(exception).__mro__
+        if base.__module__ == 'builtins'):
+      try:
+        candidate = base.__new__(ExceptionProxy, *exception.args)
+      except TypeError:
+        continue
+      if isinstance(candidate, ExceptionProxy):
+        proxy = candidate
+        break
   if proxy is None:
-    # The class cannot be instantiated from `args` at all; the message can't be
-    # augmented, but the exception itself must not be replaced by this failure.
+    # No proxy can stand in for this exception; the message can't be augmented,
+    # but the exception itself must not be replaced by this failure.
     raise exception  # pylint: disable=raise-missing-from
   raise proxy.with_traceback(exception.__traceback__)
 
